@@ -43,15 +43,28 @@ type fnode struct {
 	cancel context.CancelFunc
 	done   chan error
 	dir    string
+	db     datastore.Batching
+	keep   bool // keep the root directory at stop (the node is restarted on it)
 	mu     sync.Mutex
 	atGate map[string]chan struct{}
 }
 
 // newFNode builds and starts a node. arm prepares the execution-layer double before Run starts.
 func newFNode(c *Ctx, w *world.World, name string, aggregator bool, arm func(*world.ExecDouble)) (*fnode, error) {
-	dir, err := os.MkdirTemp("", "verif-fnode-")
-	if err != nil {
-		return nil, err
+	return newFNodeOn(c, w, name, aggregator, arm, nil)
+}
+
+// newFNodeOn: prev != nil restarts the node of prev on the same datastore, root directory and execution layer.
+func newFNodeOn(c *Ctx, w *world.World, name string, aggregator bool, arm func(*world.ExecDouble), prev *fnode) (*fnode, error) {
+	var dir string
+	var err error
+	if prev != nil {
+		dir = prev.dir
+	} else {
+		dir, err = os.MkdirTemp("", "verif-fnode-")
+		if err != nil {
+			return nil, err
+		}
 	}
 	conf := config.DefaultConfig
 	conf.RootDir = dir
@@ -66,6 +79,11 @@ func newFNode(c *Ctx, w *world.World, name string, aggregator bool, arm func(*wo
 	conf.Instrumentation = &config.InstrumentationConfig{}
 	f := &fnode{c: c, w: w, name: name, dir: dir, atGate: map[string]chan struct{}{"exec": make(chan struct{}, 1024), "final": make(chan struct{}, 1024)}}
 	f.exec = world.NewExecDouble(c.Tr, name, w.IDs)
+	f.db = dssync.MutexWrap(datastore.NewMapDatastore())
+	if prev != nil {
+		f.exec, f.db = prev.exec, prev.db
+		f.exec.Gate, f.exec.FinalGate = nil, nil
+	}
 	f.exec.AtGate = func(which string) {
 		select {
 		case f.atGate[which] <- struct{}{}:
@@ -91,7 +109,7 @@ func newFNode(c *Ctx, w *world.World, name string, aggregator bool, arm func(*wo
 		sg = nil
 	}
 	nd, err := node.NewNode(ctx, conf, f.exec, coresequencer.NewDummySequencer(), w.DA, sg, pc, w.Genesis,
-		dssync.MutexWrap(datastore.NewMapDatastore()), node.DefaultMetricsProvider(&config.InstrumentationConfig{}), logger, node.NodeOptions{})
+		f.db, node.DefaultMetricsProvider(&config.InstrumentationConfig{}), logger, node.NodeOptions{})
 	if err != nil {
 		cancel()
 		return nil, err
@@ -149,8 +167,16 @@ func (f *fnode) stop(how string) (hung bool) {
 		closeGate(f.exec.Gate)
 		closeGate(f.exec.FinalGate)
 	}
-	os.RemoveAll(f.dir)
+	if !f.keep {
+		os.RemoveAll(f.dir)
+	}
 	return hung
+}
+
+// obs records the node's chain height and DA-included height.
+func (f *fnode) obs(tag string) {
+	m := f.n.VerifBlockManager()
+	f.c.Tr.Emit("NodeObs", world.F{"node": f.name, "tag": tag, "height": int(f.height()), "incl": int(m.GetDAIncludedHeight()), "held": f.w.DA.AcceptedCount()})
 }
 
 func closeGate(g chan struct{}) {
@@ -208,7 +234,75 @@ func RunFullNode(c *Ctx) {
 		for _, s := range scen {
 			runFNScenario(c, fmt.Sprintf("fullnode/%s/%d", s.name, r), s)
 		}
+		runFNStopInSubmit(c, fmt.Sprintf("fullnode/agg/stop-in-submit+restart/%d", r))
 	}
+}
+
+// runFNStopInSubmit: an orderly stop arrives while a DA submission is in flight; the DA layer accepts it a moment
+// later (the request had already left). The node shuts down, is restarted on the same storage and left running
+// with an accepting DA layer: every block is on the DA layer, so the DA-included height must reach the chain height.
+func runFNStopInSubmit(c *Ctx, run string) {
+	c.Tr.Reset(run, world.F{"driver": "fullnode", "ih": 1, "src": "fullnode"})
+	w := world.NewWorld(c.Tr, 1, time.Now().Add(-time.Second))
+	defer w.Close()
+	c.Count("scenarios", 1)
+	prepared := false
+	defer func() { c.Tr.Emit("NodeEnd", world.F{"prepared": prepared}) }()
+	agg, err := newFNode(c, w, "seq", true, nil)
+	if err != nil {
+		c.Tr.Emit("NodeSetupErr", world.F{"msg": err.Error()})
+		return
+	}
+	agg.keep = true
+	defer os.RemoveAll(agg.dir)
+	if !waitFor(15*time.Second, func() bool { return agg.height() >= 4 && agg.n.VerifBlockManager().GetDAIncludedHeight() >= 2 }) {
+		c.Count("unprepared", 1)
+		agg.stop("cancel")
+		return
+	}
+	// hold the next submissions inside the DA layer
+	at := make(chan struct{}, 64)
+	gate := make(chan struct{})
+	w.DA.AtSubmitGate = func() {
+		select {
+		case at <- struct{}{}:
+		default:
+		}
+	}
+	w.DA.GateIgnoresCtx = true
+	w.DA.SubmitGate = gate
+	select {
+	case <-at:
+	case <-time.After(10 * time.Second):
+		c.Count("unprepared", 1)
+		close(gate)
+		agg.stop("cancel")
+		return
+	}
+	time.Sleep(300 * time.Millisecond) // a few more blocks are produced behind the held submission
+	prepared = true
+	go func() { time.Sleep(500 * time.Millisecond); close(gate) }() // the DA layer accepts after the stop request
+	agg.obs("before-stop")
+	if agg.stop("cancel") {
+		return
+	}
+	w.DA.SubmitGate, w.DA.GateIgnoresCtx, w.DA.AtSubmitGate = nil, false, nil
+	again, err := newFNodeOn(c, w, "seq", true, nil, agg)
+	if err != nil {
+		c.Tr.Emit("NodeSetupErr", world.F{"msg": err.Error()})
+		return
+	}
+	again.keep = true
+	h0 := again.height()
+	waitFor(15*time.Second, func() bool {
+		return again.height() >= h0+2 && uint64(again.n.VerifBlockManager().GetDAIncludedHeight())+1 >= again.height()
+	})
+	// freeze production is not possible on a running node: sample, then compare with what was on the DA layer a moment before
+	time.Sleep(300 * time.Millisecond)
+	again.obs("after-restart")
+	c.Tr.Emit("NodeQuiesce", world.F{"node": "seq", "h0": int(h0), "height": int(again.height()), "incl": int(again.n.VerifBlockManager().GetDAIncludedHeight())})
+	again.stop("cancel")
+	c.Count("stops", 1)
 }
 
 func runFNScenario(c *Ctx, run string, s fnScenario) {
